@@ -66,6 +66,8 @@ def neutral(x, depth=0):
         return {'num': [f(c.real), f(c.imag)]}
     if isinstance(x, spec.Raised):
         return {'raised': [c.__name__ for c in type(x.exc).__mro__ if c is not object]}
+    if np is not None and isinstance(x, np.ndarray) and x.ndim == 0:
+        return neutral(x.item(), depth + 1)
     if np is not None and isinstance(x, np.ndarray):
         return {'array': [neutral(v, depth + 1) for v in x.tolist()] if x.ndim else neutral(x.item()), 'shape': list(x.shape)}
     if isinstance(x, (list, tuple)):
